@@ -146,6 +146,13 @@ def build_model(kind: str, a: str, b: str) -> str:
     elif kind == "class-enum":
         classes.append(simple_class(a, [("some_prop", "str")]))
         enums.append((b, ["First_one", "Second_one"]))
+    elif kind == "class-then-enum":
+        # the same pair, but the enumeration is defined *after* the class
+        classes.append(simple_class(a, [("some_prop", "str")]))
+        classes.append(enum_def(b, ["First_one", "Second_one"]))
+    elif kind == "class-then-cprim":
+        classes.append(simple_class(a, [("some_prop", "str")]))
+        classes.append(f"class {b}(str, DBC):\n    pass\n\n\n")
     elif kind == "enum-enum":
         enums += [(a, ["First_one"]), (b, ["Second_one"])]
     elif kind == "class-cprim":
@@ -268,7 +275,7 @@ DERIVED = [
     ("function-function", "private-underscore", "is_fine", "_is_fine"),
 ]
 
-KINDS_UPPER = ["class-class", "class-enum", "enum-enum", "class-cprim", "abstract-class"]
+KINDS_UPPER = ["class-class", "class-enum", "class-then-enum", "enum-enum", "class-cprim", "class-then-cprim", "abstract-class"]
 KINDS_LOWER = ["property-property", "property-inherited", "method-method", "property-method",
                "function-function"]
 KINDS_MIXED = ["literal-literal", "constant-constant", "constant-set-constant-set"]
